@@ -210,8 +210,8 @@ func init() {
 		Required: []string{"tokens", "docs", "tokens.with_template", "fuzz.tokens", "fuzz.attributes", "probes"},
 		Streams: []fw.Stream{
 			{Name: "probes", Quick: len(c09Probes), Thorough: len(c09Probes), Run: c09Probe},
-			{Name: "generated", Quick: 300000, Thorough: 8000000, Run: c09Generated},
-			{Name: "fuzz", Quick: 300000, Thorough: 8000000, Run: c09Fuzz},
+			{Name: "generated", Quick: 300000, Thorough: 64000000, Run: c09Generated},
+			{Name: "fuzz", Quick: 300000, Thorough: 64000000, Run: c09Fuzz},
 		},
 	})
 }
